@@ -14,7 +14,7 @@
 From Coq Require Import NArith Arith Bool List Lia.
 From PcoreV Require Import Model.Conc Model.ConcLazy Model.ConcReg Proofs.ConcProofs Proofs.ConcLockProofs
   Proofs.ConcLiveProofs Proofs.ConcLazyProofs Proofs.ConcRegProofs Model.ConcDisc Proofs.ConcDiscProofs
-  Proofs.ConcDefineProofs.
+  Proofs.ConcDefineProofs Model.ConcInit Proofs.ConcInitProofs Model.ConcNs Proofs.ConcNsProofs.
 Import ListNotations.
 
 (* ---- no_fault ------------------------------------------------------------------------------------------ *)
@@ -404,3 +404,84 @@ Example C13_define_over_file_refuted :
   In (EvRes 0 (OLoad 1 0%N) RErr)
      (trace cfgF [[OLoad 1 0%N]; [ODefine 1 0%N v0]] [0; 0; 0; 0; 0; 0; 1; 0; 0; 0]).
 Proof. vm_compute. auto. Qed.
+
+
+(* ---- the first initialization of the runtime, entered by several goroutines at once (Model/ConcInit.v) ------------ *)
+
+(* For EVERY schedule of EVERY number of goroutines whose first pcore.Do / RootContext / Try race: a goroutine whose
+   use of the runtime has returned saw a completely initialized runtime (implementation registry set, the Pcore::
+   aliases and the declarations of the init() functions resolved in the static loader) - the answers of a sequential
+   order.  InitializeRuntime is one critical section under staticLock; the logger, its "initialized" flag, is the
+   first thing it assigns, and only the lock makes a second caller wait for the rest. *)
+Theorem C13_first_use_sees_initialized_runtime :
+  forall (s : list nat) (t : nat) (complete : bool),
+    i_pc (iexec ILocked s) t = IDone complete -> complete = true.
+Proof. exact first_use_complete. Qed.
+Print Assumptions C13_first_use_sees_initialized_runtime.
+
+(* the declarations of the init() functions end up in the static loader, never in the loader of somebody's context *)
+Theorem C13_first_use_declarations_stay_static :
+  forall (s : list nat), i_stolen (iexec ILocked s) = false.
+Proof. exact first_use_never_stolen. Qed.
+Print Assumptions C13_first_use_declarations_stay_static.
+
+(* staticLock is released on every path: as long as some goroutine has not returned, some goroutine can move *)
+Theorem C13_first_use_no_deadlock :
+  forall (s : list nat) (t : nat),
+    is_done (i_pc (iexec ILocked s) t) = false -> exists t', ienabled (iexec ILocked s) t' = true.
+Proof. exact first_use_no_deadlock. Qed.
+Print Assumptions C13_first_use_no_deadlock.
+
+(* The double-checked fast path (the test of the logger repeated in front of the lock: seeded change C13-m7) does
+   not have the property: the second goroutine uses a runtime without implementation registry, and takes the
+   declarations of the init() functions away from the initializer. *)
+Definition C13_statement_first_use (m : imode) : Prop :=
+  forall (s : list nat) (t : nat) (complete : bool), i_pc (iexec m s) t = IDone complete -> complete = true.
+Theorem C13_fast_path_refuted : ~ C13_statement_first_use IFastPath.
+Proof. intros H. destruct fast_path_refuted as (s & t & Hs). specialize (H s t false Hs). discriminate. Qed.
+Print Assumptions C13_fast_path_refuted.
+
+Example C13_first_use_nonvacuous :
+  (park_obs ILocked 3 0 = [(false, true); (false, true); (false, true)]) /\
+  (park_obs IFastPath 3 0 = [(false, false); (true, false); (true, false)]) /\
+  (park_obs IFastPath 3 1 = [(false, true); (true, false); (true, false)]).
+Proof. vm_compute. auto. Qed.
+
+
+(* ---- a file based loader whose SmartPath serves several namespaces (Model/ConcNs.v) ------------------------------ *)
+
+(* For EVERY set of files (good and broken), EVERY number of namespaces of the path, EVERY program of loads and
+   HasEntry questions through any of the namespaces and EVERY schedule: a file is read and instantiated at most once.
+   fileBasedLoader.instantiate maps the requested name to the name of the FIRST namespace before it looks up the name
+   mutex, marks the file under that name before the mutex is released for the first time, and the mutex leaves the
+   table only through threads that have seen the mark: while the first-namespace name has no entry, all threads on
+   their way into the instantiation of that file use one and the same mutex (invariant ConcNsProofs.ninv). *)
+Theorem C13_namespaces_instantiate_once :
+  forall (c : ncfg) (p : nprog) (s : list nat) (b : N),
+    nsparse b (ntrace KeyMapped c p s) <= 1.
+Proof. exact ns_instantiate_once. Qed.
+Print Assumptions C13_namespaces_instantiate_once.
+
+(* whoever is inside the critical section of instantiate nholds its name mutex *)
+Theorem C13_namespaces_lock_holder :
+  forall (c : ncfg) (p : nprog) (s : list nat) (t : nat) (lk : nat),
+    nholds (pcof (nexec KeyMapped c p s) t) = Some lk -> nheld (ns_sh (nexec KeyMapped c p s)) lk = Some t.
+Proof. exact ns_lock_holder. Qed.
+Print Assumptions C13_namespaces_lock_holder.
+
+(* The lock table keyed by the name that was asked for (key computed before the name is mapped: seeded change
+   C13-m8) does not have the property: step/Na and definition/Na use two mutexes and instantiate the file twice;
+   and a load through the second namespace that meets the mark of the first does not wait: "not found". *)
+Definition C13_statement_namespaces_once (m : keymode) : Prop :=
+  forall (c : ncfg) (p : nprog) (s : list nat) (b : N), nsparse b (ntrace m c p s) <= 1.
+Theorem C13_key_before_mapping_refuted : ~ C13_statement_namespaces_once KeyRequested.
+Proof.
+  intros H. pose proof (H cfg_one [[NLoad 0 0%N]; [NLoad 1 0%N]] [0;0;0;0;0; 1;1;1;1;1; 0;0;0; 1;1;1] 0%N) as Hx.
+  rewrite key_requested_refuted in Hx. lia.
+Qed.
+Print Assumptions C13_key_before_mapping_refuted.
+
+Example C13_namespaces_nonvacuous :
+  (nresults_of 1 (ntrace KeyRequested cfg_one [[NLoad 0 0%N]; [NLoad 1 0%N]] [0;0;0;0;0;0; 1;1;1;1;1;1;1; 0;0]) = [NFound None]) /\
+  (nresults_of 1 (ntrace KeyMapped cfg_one [[NLoad 0 0%N]; [NLoad 1 0%N]] [0;0;0;0;0;0; 1;1;1;1;1;1;1; 0;0; 1;1;1;1]) = [NFound (Some 0)]).
+Proof. exact key_requested_not_found. Qed.
